@@ -116,6 +116,33 @@ theorem C17_pending_foreign (p : Nat) (more : List Nat) (s : St) {ns : List Seg}
     simp only [replyOf, hf, if_false]
     exact ⟨by first | rfl | trivial, hc.frame.pending.trans hp⟩
 
+/-- **A wait that does not get its reply leaves the request pending.** Whatever makes `getReply` fail
+for the oldest pending request — a hard receive failure of any kind (ENOBUFS after an overrun, EIO, EBADF:
+the model has one such failure because the code has one), ten transient failures in a row, an empty
+read, a reply with another request's number — `WaitForPendingACKs` returns that error and the pending
+list is exactly what it was: the acknowledgement has not been consumed, so the request is not forgotten. -/
+theorem C17_failed_wait_keeps_pending (p : Nat) (more : List Nat) (s : St) (hp : s.pending = p :: more)
+    (e : Err) (hg : (getReply p s).2 = .error e) :
+    (waitForPendingACKs s).2 = .fail e ∧ (waitForPendingACKs s).1.pending = p :: more := by
+  have hf := getReply_frame p s
+  unfold waitForPendingACKs
+  rw [hp]
+  unfold waitLoop
+  cases hgr : getReply p s with
+  | mk s1 r =>
+    rw [hgr] at hg hf
+    simp only at hg hf
+    subst hg
+    exact ⟨rfl, hf.pending.trans hp⟩
+
+/-- … in particular after a hard receive failure right at the front of the queue. -/
+example :
+    let ack (q e : Nat) : PItem := ⟨.raw (serialize ⟨⟨0, 2, 0, q, 0⟩, le32 ((4294967296 - e) % 4294967296)⟩), none⟩
+    let s0 := { St.init 0 64 true with plans := [{ items := [⟨.fail, none⟩, ack 1 0] }, { items := [ack 2 0] }] }
+    let r := run s0 [.setEnabled true NoWait, .setRateLimit 5 NoWait, .waitAcks, .waitAcks, .waitAcks]
+    r.2 = [.ok .none, .ok .none, .fail .recv, .ok .none, .ok .none] ∧ r.1.pending = [] ∧ r.1.queue = [] := by
+  decide
+
 /-- calling again when nothing is pending does nothing at all: no re-waiting -/
 theorem C17_wait_again (s : St) (h : s.pending = []) : waitForPendingACKs s = (s, .ok .none) := by
   unfold waitForPendingACKs; rw [h]; rfl
